@@ -245,7 +245,13 @@ def main(argv=None):
     for name, ag in sorted(agg.items()):
         if ag["verdict"] == "refuted":
             rp = write_replay(prop, name, ag, cpath, src)
-            res = native_replay(rp, src) if ag["model"] is not None and ag["kind"] in ("post", "raises") else {"confirmed": False, "why": "no model / not a top-level clause"}
+            cobj = reg.contracts.get(ag["target"])
+            if cobj is not None and not cobj.replayable:
+                res = {"confirmed": False, "why": "contract marked not natively replayable (needs a live engine / threads); the failed obligation and the solver's counter-model are in the replay file"}
+            elif ag["model"] is not None and ag["kind"] in ("post", "raises"):
+                res = native_replay(rp, src)
+            else:
+                res = {"confirmed": False, "why": "no model / not a top-level clause"}
             ag["replay"] = rp
             ag["replay_result"] = res
             with open(rp) as fh:
